@@ -21,7 +21,9 @@ Abstracted:
   the zero time saturates at `maxDuration` (true for every time after the year 293); otherwise no int64 overflow
   is modelled (assumption: |t − t'| < 2^63 ns).
 * the flapping decision is a PARAMETER `flap : FlapFn` of every function (new flag from old flag, ring and idx);
-  every theorem holds for every `flap`; the executable instance `goFlap` is the Go loop over `Float`
+  the emission theorems hold for every `flap`. The code's `flap` is `ringFlap off dec`: which ring slots are compared
+  (`ringDiffs`, index arithmetic transcribed, start offset extracted) and a decision `dec` on the comparison outcomes
+  (weights + hysteresis); the flag theorems hold for every `dec`; the driver executes `floatDecide`
   (Lean `Float` = IEEE binary64 = Go `float64`; same operations in the same order).
 * message / details templates, inhibitors, statistics, tags/fields augmentation are not modelled (the harness
   observes level / id / duration fields of the forwarded data and compares them with the event).
@@ -286,7 +288,36 @@ def restoreEventStateOld (c : Cfg) (flap : FlapFn) (t : Int) (level : Nat) (stor
   let s := newAlertState c
   if level != 0 then triggered (addEvent c flap s t level) stored else s
 
-/-! ### The executable flapping instance: `percentChange` / `updateFlapping` over IEEE doubles -/
+/-! ### Flap detection: `percentChange` / `updateFlapping`
+
+Split in two so that the flapping flag is INSIDE the theorems:
+* `ringDiffs` — WHICH slots of the ring `percentChange` compares, in loop order (index arithmetic only; the start
+  offset of the loop is extracted from the source: `Gen.flapStartOffset`);
+* a decision `FlapDecide` on that list of comparison outcomes — the weighting arithmetic and the low/high
+  hysteresis. Every theorem holds for EVERY decision; two instances are given: `floatDecide` (IEEE doubles, the same
+  operations in the same order as the Go code; used by the driver) and `exactDecide` (exact integer arithmetic of the
+  same formula with rational thresholds; used in decided examples). -/
+
+/-- `percentChange`'s comparisons: `for i := 0; i < l-1; i++ { c := (i + idx + off) % l; p := c-1 (wrapping);
+history[c] != history[p] }`. -/
+def ringDiffs (off : Nat) (history : List Nat) (idx : Nat) : List Bool :=
+  (List.range (history.length - 1)).map (fun i =>
+    let c := (i + idx + off) % history.length
+    let p := if c = 0 then history.length - 1 else c - 1
+    history.getD c 0 != history.getD p 0)
+
+/-- (old flag, outcomes of the comparisons in loop order) ↦ new flag -/
+abbrev FlapDecide := Bool → List Bool → Bool
+
+/-- `updateFlapping` after the `UseFlapping` test, for a given decision. -/
+def ringFlap (off : Nat) (dec : FlapDecide) : FlapFn := fun flapping history idx => dec flapping (ringDiffs off history idx)
+
+/-- the `if … else if …` of `updateFlapping` (guards extracted) -/
+def hysteresis (flapping belowLow aboveHigh : Bool) : Bool :=
+  let g : Gen.G := { flapping := flapping, pBelowLow := belowLow, pAboveHigh := aboveHigh }
+  if Gen.flapOff g then false
+  else if Gen.flapOn g then true
+  else flapping
 
 /-- Constants of `percentChange`, as Go evaluates them: `weight0 = maxWeight / weightDiff` is an untyped constant
 expression (exact, then rounded once), `maxWeight` is rounded to float64 where it meets a float64 variable. -/
@@ -294,32 +325,37 @@ structure FlapConsts where
   weight0 : Float
   maxWeight : Float
 
-/-- `percentChange()` -/
-def percentChange (k : FlapConsts) (history : List Nat) (idx : Nat) : Float := Id.run do
-  let l := history.length
-  let mut changes : Float := 0.0
-  let mut weight := k.weight0
-  let step := (k.maxWeight - weight) / (l - 1).toFloat
-  for i in [0:l-1] do
-    let c := (i + idx) % l
-    let p := if c = 0 then l - 1 else c - 1
-    if history.getD c 0 != history.getD p 0 then changes := changes + weight
-    weight := weight + step
-  return changes / (l - 1).toFloat
+/-- `percentChange()` over float64, on the comparison outcomes: `changes += weight` where they differ,
+`weight += step` every time, `changes / float64(l-1)`. -/
+def weighF (k : FlapConsts) (diffs : List Bool) : Float :=
+  let m := diffs.length.toFloat      -- float64(l-1)
+  let step := (k.maxWeight - k.weight0) / m
+  let r := diffs.foldl (fun (acc : Float × Float) d => (if d then acc.1 + acc.2 else acc.1, acc.2 + step)) (0.0, k.weight0)
+  r.1 / m
 
-/-- the body of `updateFlapping` after the `UseFlapping` test -/
-def goFlap (k : FlapConsts) (low high : Float) : FlapFn := fun flapping history idx =>
-  let p := percentChange k history idx
-  let g : Gen.G := { flapping := flapping, pBelowLow := p < low, pAboveHigh := p > high }
-  if Gen.flapOff g then false
-  else if Gen.flapOn g then true
-  else flapping
+def floatDecide (k : FlapConsts) (low high : Float) : FlapDecide := fun flapping diffs =>
+  let p := weighF k diffs
+  hysteresis flapping (p < low) (p > high)
+
+/-- The same formula exactly: with `m = l-1` comparisons, weight of the i-th is `4/5 + i·(2/5)/m`, so
+`percentChange = (Σ_{i differs} (4m + 2i)) / (5 m²)`. Thresholds are rationals `num/den`. -/
+def weighNum (diffs : List Bool) : Nat :=
+  let m := diffs.length
+  ((List.range m).zip diffs).foldl (fun acc (id : Nat × Bool) => if id.2 then acc + (4 * m + 2 * id.1) else acc) 0
+
+def exactDecide (lowNum lowDen highNum highDen : Nat) : FlapDecide := fun flapping diffs =>
+  let m := diffs.length
+  let pNum := weighNum diffs       -- percentChange = pNum / (5 m²)
+  hysteresis flapping (decide (pNum * lowDen < lowNum * (5 * m * m))) (decide (pNum * highDen > highNum * (5 * m * m)))
 
 /-- The constants as extracted (`none`: the source was not recognised). -/
 def flapConsts? : Option FlapConsts :=
   match Gen.weight0Bits, Gen.maxWeightBits with
   | some a, some b => some { weight0 := Float.ofBits a, maxWeight := Float.ofBits b }
   | _, _ => none
+
+/-- `updateFlapping` as the driver executes it (float64). -/
+def goFlap (off : Nat) (k : FlapConsts) (low high : Float) : FlapFn := ringFlap off (floatDecide k low high)
 
 /-! ### Runs -/
 
